@@ -344,7 +344,7 @@ func Check[C any](t *testing.T, p Prop[C]) {
 	defer s.write()
 	replayOut := os.Getenv("VERIF_REPLAY_OUT")
 	current := ""
-	if out := os.Getenv("VERIF_OUT"); out != "" && p.MarkCurrent {
+	if out := os.Getenv("VERIF_OUT"); out != "" && (p.MarkCurrent || os.Getenv("VERIF_MARK_CURRENT") != "") {
 		current = out + ".current"
 	}
 
